@@ -128,7 +128,7 @@ def no_operator_overloading(rep, modname='engine'):
                         function='%s.%s' % (modname, cname), witness=None if not bad else dict(sites=bad))
     # functions of the module are what their def says: no decorator replaces them (functools caches, wrappers)
     for q, fn in mod.functions.items():
-        decs = [ast.unparse(d) for d in fn.decorator_list if ast.unparse(d) not in ('staticmethod', 'classmethod', 'property')]
+        decs = [ast.unparse(d) for d in fn.decorator_list if ast.unparse(d) not in ('staticmethod', 'classmethod', 'property', 'abstractmethod', 'abc.abstractmethod')]
         rep.add_checked('%s.%s.semantics.no_decorator' % (modname, q), not decs,
                         'decorated with ' + ', '.join(decs) if decs else '', 'ast', function='%s.%s' % (modname, q),
                         witness=None if not decs else dict(decorators=decs, line=fn.lineno))
